@@ -125,7 +125,8 @@ int main()
       std::vector<double> b; if (okB) for (int i = 0; i < grid->getSampleNumber(); i++) b.push_back(grid->getValueByColIdx(i, n1));
       if (okA && okB && a.size() == b.size() && !a.empty())
       { // the iterative solver stops at its own tolerance: agreement to 1e-3 of the data scale (scale passed: 2^-20 * S = 1e-3*4)
-        pairOut("kriging_cholesky_vs_iterative", a, b, 4096., st);
+        double am = 1.; for (double v : a) am = std::max(am, std::fabs(v));
+        pairOut("kriging_cholesky_vs_iterative", a, b, 4096. * am, st);      // 0.4 % of the largest estimate
       }
       else st.hit("spde_kriging_refused");
       // log-likelihood: exact log-determinant (Cholesky) vs its Monte-Carlo estimate (iterative solver)
